@@ -226,9 +226,58 @@ func c18SweepPairs() int {
 	return 2 * n * len(c18SweepMarks)
 }
 
-func c18SweepInputs() int { return (c18SweepPairs() + c18SweepGroup - 1) / c18SweepGroup }
+func c18PairInputs() int { return (c18SweepPairs() + c18SweepGroup - 1) / c18SweepGroup }
+
+func c18SweepInputs() int { return c18PairInputs() + c18AffixInputs() }
+
+// The affix sweep: every word made of a stem of at most one letter followed by one or two of the suffix
+// fragments the bundled Latin-script stemmers strip (and by three of the shortest ones). Stemmers guard each
+// strip by a length test; a word that is nearly all suffix is where a guard that no longer covers a later
+// strip shows (an index before the start of the rune slice), and example phrases never contain such words.
+var c18AffixStems = []string{"", "a", "s", "f", "\u00e9", "x", "t"}
+var c18AffixFragments = []string{"e", "s", "r", "er", "ie", "\u00e9", "es", "a", "o", "i", "en", "st", "em", "n", "t",
+	"\u00e9e", "ement", "euse", "eux", "aux", "tion", "ique", "isme", "able", "iste", "ment", "it\u00e9", "eur", "if", "ive", "al",
+	"os", "as", "amente", "mente", "idad", "ci\u00f3n", "ico", "ismo", "ista", "ing", "ed", "ly", "ness", "ful", "ern",
+	"lich", "heit", "keit", "ung", "ig", "isch", "ene", "ane", "ers", "ets", "hed", "\u00f5es", "\u00e3o", "eza", "ssimo"}
+
+const c18AffixShort = 15 // the first fifteen fragments are also combined three at a time
+
+var c18AffixOnce sync.Once
+var c18AffixList []string
+
+func c18AffixWords() []string {
+	c18AffixOnce.Do(func() {
+		for _, st := range c18AffixStems {
+			for _, a := range c18AffixFragments {
+				c18AffixList = append(c18AffixList, st+a)
+				for _, b := range c18AffixFragments {
+					c18AffixList = append(c18AffixList, st+a+b)
+				}
+			}
+			for _, a := range c18AffixFragments[:c18AffixShort] {
+				for _, b := range c18AffixFragments[:c18AffixShort] {
+					for _, d := range c18AffixFragments[:c18AffixShort] {
+						c18AffixList = append(c18AffixList, st+a+b+d)
+					}
+				}
+			}
+		}
+	})
+	return c18AffixList
+}
+
+func c18AffixInputs() int { return (len(c18AffixWords()) + c18SweepGroup - 1) / c18SweepGroup }
 
 func c18SweepInput(i int) []byte {
+	if i >= c18PairInputs() {
+		w := c18AffixWords()
+		lo := (i - c18PairInputs()) * c18SweepGroup
+		hi := lo + c18SweepGroup
+		if hi > len(w) {
+			hi = len(w)
+		}
+		return []byte(strings.Join(w[lo:hi], " "))
+	}
 	half := c18SweepPairs() / 2
 	var sb strings.Builder
 	for p := i * c18SweepGroup; p < (i+1)*c18SweepGroup && p < 2*half; p++ {
@@ -325,6 +374,9 @@ func c18Child(in json.RawMessage) (interface{}, error) {
 		var input []byte
 		if job.Sweep {
 			class, input = "pairsweep", c18SweepInput(i)
+			if i >= c18PairInputs() {
+				class = "affixsweep"
+			}
 		} else {
 			class = c18Classes[r.Intn(len(c18Classes))]
 			input = c18GenInput(r, class)
@@ -618,7 +670,7 @@ func c18Shared(job c18Job, out *c18Out, add func(key, what string, input []byte,
 }
 
 func runC18(c *vk.Ctx) {
-	c.Rule("script-aware generators (Latin, Arabic, Persian, Cyrillic, Devanagari, CJK incl. half/full width, Sorani, emoji / joiners / control characters, raw bytes, truncated runes, mixtures) fed to all 24 bundled analyzers, 8 tokenizers, ~75 token filter configurations (n-gram, edge n-gram, shingle, truncate, length grids; stemmers, normalisers, elision, compound, bigram, width ...) with synthetic token streams (whole input, pieces, empty and one-rune tokens) and 5 char filters, in child processes with a progress watchdog; plus an enumerated sweep through every analyzer / tokenizer / filter of all (rune, mark) and (mark, rune) pairs for the runes of nine script blocks (Latin-1 sup./ext., Greek, Cyrillic, Arabic, Devanagari, Hangul Jamo, CJK symbols + kana, CJK compatibility, half/full-width forms) x 22 combining / voiced / joiner / width marks; " +
+	c.Rule("script-aware generators (Latin, Arabic, Persian, Cyrillic, Devanagari, CJK incl. half/full width, Sorani, emoji / joiners / control characters, raw bytes, truncated runes, mixtures) fed to all 24 bundled analyzers, 8 tokenizers, ~75 token filter configurations (n-gram, edge n-gram, shingle, truncate, length grids; stemmers, normalisers, elision, compound, bigram, width ...) with synthetic token streams (whole input, pieces, empty and one-rune tokens) and 5 char filters, in child processes with a progress watchdog; plus an enumerated sweep through every analyzer / tokenizer / filter of all (rune, mark) and (mark, rune) pairs for the runes of nine script blocks (Latin-1 sup./ext., Greek, Cyrillic, Arabic, Devanagari, Hangul Jamo, CJK symbols + kana, CJK compatibility, half/full-width forms) x 22 combining / voiced / joiner / width marks, and of every word made of a stem of at most one letter plus one or two (three of the fifteen shortest) of 61 suffix fragments the Latin-script stemmers strip; " +
 		"oracle: no panic, two runs agree, PositionIncr >= 0, 0 <= start <= end <= length of what the tokenizer saw, tokenizer term = input slice, and (every 4th input with tokens) a one-document index finds the document by a match query requiring all terms of its own text. distinct non-trivial = distinct (component, input class) that produced at least one token")
 	c.Assume("'the text the tokenizer saw' is obtained by applying the analyzer's own CharFilters to the input",
 		"non-termination is caught by the child's progress watchdog (wall clock, 90 s without a finished input batch) and reported as inconclusive unless the child died")
@@ -675,6 +727,7 @@ func runC18(c *vk.Ctx) {
 	// the position gap on - is part of the synthetic streams of the single-filter jobs instead.
 	_ = sort.Strings
 	c.Set("pair_sweep_pairs", c18SweepPairs())
+	c.Set("affix_sweep_words", len(c18AffixWords()))
 	opts := vk.ChildOpts{PerChild: 8, Parallel: runtime.NumCPU(), CaseTimeout: 120 * time.Second, RlimitMB: 3072}
 	results := vk.RunChildren(c.Scratch(), "c18", cases, opts)
 	for i := range results {
